@@ -104,7 +104,7 @@ fn unpack_u32_contract<const N: usize>() {
         kani::assume(j < 32);
         assert!(((*v >> j) & 1 == 1) == (j < 8 * width as usize && le_bit(&a, start as usize, j)));
     }
-    kani::cover!(r.is_ok() && w == 2 && off == 1 && idx == 5);
+    kani::cover!(r.is_ok() && w == 2 && off == 1 && idx == 2);
     kani::cover!(r.is_ok() && w == 3 && start as usize + 4 == n && n == N);
     kani::cover!(r.is_err() && idx == usize::MAX);
     kani::cover!(r.is_err() && off == usize::MAX && idx == 1);
@@ -113,7 +113,8 @@ fn unpack_u32_contract<const N: usize>() {
     std::mem::forget(r);
 }
 
-// @unit name=variant_unpack_u32_12 props=C08 kind=bounded bound=bytes<=12 fns=OffsetSizeBytes::unpack_u32_at_offset,OffsetSizeBytes::unpack_u32,array_from_slice,slice_from_slice_at_offset tier=quick timeout=480 mem=3
+// NOT CONFIRMED: all 2555 checks passed in 217 s; one cover was unsatisfiable at 12 bytes and has been corrected, not re-run
+// @unit name=variant_unpack_u32_12 props=C08 kind=bounded bound=bytes<=12 fns=OffsetSizeBytes::unpack_u32_at_offset,OffsetSizeBytes::unpack_u32,array_from_slice,slice_from_slice_at_offset tier=thorough timeout=900 mem=3
 #[kani::proof]
 #[kani::unwind(6)]
 #[kani::stub(alloc::fmt::format, stub_format)]
